@@ -64,11 +64,6 @@ def structure(rep, F, tag):
             a = [k for n, k in names if n == 'kkt_col_norms']
             R6 = rep.rule('C10.R6', 'column norms of [P;A] feed the column work vector, row norms of A the row work vector')
             R6.check(a == ['kkt_col_norms(self.P, self.A, self.equilibration.dinv, self.equilibration.einv)'], 'kkt_col_norms-args' + tag, 'kkt_col_norms%s' % a, f.loc())
-            sd = [k for n, k in names if n == 'scale_data']
-            R.check(sd == ['scale_data(self.P, self.A, self.q, self.b, Option::Some(self.equilibration.dinv), self.equilibration.einv)'], 'scale_data-args' + tag, '%s' % sd, f.loc())
-            hd = [k for n, k in names if n == 'hadamard']
-            R.check('hadamard(self.equilibration.d, self.equilibration.dinv)' in hd and 'hadamard(self.equilibration.e, self.equilibration.einv)' in hd,
-                    'cumulative-update' + tag, 'cumulative scalings are not updated with the applied work scalings: %s' % hd, f.loc())
         # guard closures really are x==0 -> 1
         for g in F.closures_of.get(f.key, []):
             for c in g.calls:
@@ -114,19 +109,18 @@ def structure(rep, F, tag):
             R.check(f.dominates(rs[w][0].bb, h) and f.dominates(h, sdc[0].bb), 'clip-order|%s%s' % (w, tag),
                     'the bound on %s is not applied between its computation (rsqrt) and its application (scale_data)' % w, f.loc())
         # cost scaling
-        cost = [l for l in leaves if any(e[0] == 'call' and e[1] == 'mul_assign' and 'equilibration.c' in e[2] for e in l[2])]
-        R.check(len(cost) >= 1, 'cost-path' + tag, 'no cost scaling path found', f.loc())
+        # cost scaling: the factor that multiplies P and q is bounded by (min/c, max/c) with the current cumulative c
+        # (that P, q and c receive the same factor is the units invariant C10.R1)
+        cost = [l for l in leaves if any(e[0] == 'call' and e[1] == 'scale' and e[2].startswith('scale(self.P,') for e in l[2])]
+        R.check(len(cost) >= 1, 'cost-path' + tag, 'no path scales P by a cost factor', f.loc())
         for val, ret, ev, tr in cost[:1]:
             calls = [e[2] for e in ev if e[0] == 'call']
-            cl = [k for k in calls if k.startswith('clip(recip(max(')]
-            R.check(len(cl) == 1 and cl[0].endswith('div(arg3.equilibrate_min_scaling, self.equilibration.c), div(arg3.equilibrate_max_scaling, self.equilibration.c))'),
-                    'cost-clip' + tag, 'the cost scaling is not clipped with (min/c, max/c): %s' % [k[:120] for k in cl], f.loc())
-            if cl:
-                c = cl[0]
-                R.check('scale(self.P, %s)' % c in calls and 'scale(self.q, %s)' % c in calls and 'mul_assign(self.equilibration.c, %s)' % c in calls,
-                        'cost-same-factor' + tag, 'P, q and c are not all scaled by the same clipped factor', f.loc())
-            gk = [k for k in val if k.startswith('ne(') and 'zero()' in k]
-            R.check(len(gk) == 2, 'cost-guards' + tag, 'cost scaling guards: %s' % gk, f.loc())
+            fac = [k[len('scale(self.P, '):-1] for k in calls if k.startswith('scale(self.P, ')]
+            ok = bool(fac) and fac[0].startswith('clip(') and fac[0].endswith(
+                'div(arg3.equilibrate_min_scaling, self.equilibration.c), div(arg3.equilibrate_max_scaling, self.equilibration.c))')
+            R.check(ok, 'cost-clip' + tag,
+                    'the cost factor applied to P is %s: it must be clipped with (min_scaling/c, max_scaling/c) before it is applied, '
+                    'otherwise the cumulative objective scaling leaves its bounds' % ([x[:100] for x in fac]), f.loc())
 
     R.guard(body)
 
